@@ -5,6 +5,8 @@ pub mod c04;
 pub mod c05;
 pub mod c06;
 pub mod c07;
+pub mod c08;
+pub mod c08_racer;
 pub mod c09;
 pub mod c10;
 pub mod c11;
@@ -29,6 +31,7 @@ pub fn run(id: &str, tier: Tier) -> Option<i32> {
         "C05" => c05::run(tier),
         "C06" => c06::run(tier),
         "C07" => c07::run(tier),
+        "C08" => c08::run(tier),
         "C09" => c09::run(tier),
         "C10" => c10::run(tier),
         "C11" => c11::run(tier),
@@ -96,11 +99,13 @@ pub fn replay(property: &str, part: &str, case: &serde_json::Value) -> Option<Re
         ("C13", "schedules") => replay_part(&c13::Schedules, case, 1),
         ("C17", "definitions") => replay_part(&c17::Definitions, case, 1),
         ("C17", "typed-calls") => replay_part(&c17::Calls, case, 1),
+        ("C08", "shutdown-scenarios") => replay_part(&c08::Shutdowns, case, 1),
+        ("C08", "teardown-racer") => replay_part(&c08_racer::Racer, case, 10),
         _ => return None,
     })
 }
 
 /// Entry point of child processes (C08 racer).
-pub fn child(_args: &[String]) -> i32 {
-    2
+pub fn child(args: &[String]) -> i32 {
+    c08_racer::child_main(args)
 }
